@@ -34,6 +34,7 @@ def run(ctx):
     d_writers(ctx)
     e_drain(ctx)
     f_flow_configs(ctx)
+    g_action_refs(ctx)
 
 
 def a_setters(ctx):
@@ -405,3 +406,30 @@ def f_flow_configs(ctx):
                       "`%s` can overwrite the configuration of an existing flow: running instances keep head positions that index the OLD element list, so heads end up on non-waiting statements and the matching index goes stale" % first_line(st),
                       line=st.lineno)
     ctx.floor("C09.f.flow-config-immutable", RT, "run-time stores into state.flow_configs", n, 1)
+
+
+def g_action_refs(ctx):
+    """Every action referenced by a running flow still exists: an Action is referenced from
+    FlowState.action_uids, from the action lists of the flow's open scopes and from context
+    variables; a site that deletes one Action from state.actions must redirect all three."""
+    t = ctx.tree.ast(SM)
+    sites = [n for n in ast.walk(t) if isinstance(n, ast.Delete) and any(isinstance(tg, ast.Subscript) and src(tg.value) == "state.actions" for tg in n.targets)]
+    sites += [n for n in ast.walk(t) if isinstance(n, ast.Expr) and isinstance(n.value, ast.Call) and src(n.value.func) in ("state.actions.pop",)]
+    ctx.floor("C09.g.action-refs", SM, "deletions of single actions from state.actions", len(sites), 1)
+    for d in sites:
+        fn = enclosing_function(d)
+        blk = None
+        p = getattr(d, "_parent", None)
+        for f in ("body", "orelse"):
+            b = getattr(p, f, None)
+            if isinstance(b, list) and d in b:
+                blk = b[: b.index(d)]
+        text = " ".join(src(s) for s in (blk or []))
+        refs = {"action_uids": re.search(r"\.action_uids\[[^\]]+\]\s*=", text) is not None,
+                "scopes": ".scopes" in text and re.search(r"scope\w*\[[^\]]+\]\s*=", text) is not None,
+                "context": re.search(r"\.context\[[^\]]+\]\s*=", text) is not None}
+        missing = sorted(k for k, v in refs.items() if not v)
+        ctx.check("C09.g.action-refs", SM, qualname(fn), first_line(d), not missing,
+                  "before the Action is deleted its uid is redirected in action_uids, in the open scopes' action lists and in the context" if not missing else
+                  "`%s` deletes an Action but does not redirect its uid in %s of the flow that referenced it: a later EndScope / flow end looks the uid up in state.actions and raises KeyError, failing a flow that did nothing wrong" % (
+                      first_line(d), missing), line=d.lineno)
